@@ -338,12 +338,32 @@ def _att_st():
     return st.one_of(doc, doc, blob, legacy, mism)
 
 
+_PAIRS_CACHE = None
+
+
+def _same_type_pairs():
+    global _PAIRS_CACHE
+    if _PAIRS_CACHE is None:
+        from vf.gen import sheets
+        xls = sheets.render_xls({"props": {}, "sheets": [{"name": "S1", "origin": [0, 0], "hdr_rows": 0, "rows": [[{"t": "s", "v": "colA"}, {"t": "s", "v": "colB"}], [{"t": "s", "v": "ZB09011"}, {"t": "n", "v": 4}]]}]})
+        _PAIRS_CACHE = [
+            [{"name": "figures.csv", "hex": b"id,city\n1,Oslo ZB09010\n".hex(), "type": "application/vnd.ms-excel"}, {"name": "ledger.xls", "hex": xls.hex(), "type": "application/vnd.ms-excel"}],
+            [{"name": "notes.html", "hex": b"<html><body><p>note ZB09012 text</p></body></html>".hex(), "type": "text/plain"}, {"name": "page.txt", "hex": b"plain ZB09013 text\n".hex(), "type": "text/plain"}],
+            [{"name": "summary.csv", "hex": b"k,v\na,ZB09014\n".hex(), "type": "text/html"}, {"name": "index.html", "hex": b"<html><body><p>index ZB09015</p></body></html>".hex(), "type": "text/html"}],
+        ]
+    return _PAIRS_CACHE
+
+
 @st.composite
 def messages(draw, idx=0):
     structure = draw(st.sampled_from(["single", "single", "alternative", "html-only", "related", "alternative"]))
     plain = draw(_body_st()) if structure != "html-only" else None
     html = draw(_body_st(html=True)) if structure in ("alternative", "html-only", "related") else None
     atts = draw(st.lists(_att_st(), max_size=3)) if draw(st.booleans()) else []
+    if draw(st.integers(0, 7)) == 0:
+        atts = [dict(a) for a in _same_type_pairs()[draw(st.integers(0, 2))]]       # one declared type, two extensions that go to different extractors
+        if draw(st.booleans()):
+            atts.reverse()
     names = set()
     for a in atts:
         while a["name"] in names:
